@@ -182,6 +182,13 @@ def run(ctx):
             real = [1] + [int.from_bytes(r.out[i:i + 32], "big") for i in range(0, len(r.out), 32)] if r.ok else [0] + list(r.out)
             exp = py_expected(fn, beh)
             exp_l = [1] + list(exp[1]) if exp[0] == "ok" else [0] + list(exp[1])
+            if fn[0].startswith("s_"):
+                # statement position: the caller returns nothing; success / failure (and the revert data) must be those of
+                # the same call in expression position
+                if exp_l[0] == 1:
+                    exp_l = [1]
+                if pred[0] == 1:
+                    pred = [1]
             key = f"{fn[1]}:mode{mode}:{'code' if code else 'nocode'}"
             dist[key] = dist.get(key, 0) + 1
             if not (code and mode == 0 and pred[0] == 1):
@@ -220,7 +227,24 @@ def run(ctx):
                 bad = None
                 static = fn[2] in ("v", "u")
                 callee_fails = code and (mode in (1, 2) or (mode == 3 and static))
-                if r.ok:
+                stmt = fn[0].startswith("ds_")
+                if stmt:
+                    # statement position: nothing is returned; success / failure and the revert data must be those of the
+                    # same call in expression position (model: same prediction; implementation: the sibling function)
+                    if pred[0] == 1:
+                        pred = [1]
+                    r2 = ch.call(dcaller, dmi["d_" + fn[0][3:]] + cd[4:])
+                    if r.ok != r2.ok or (not r.ok and r.out != r2.out):
+                        bad = (f"the extcall in statement position {'succeeds' if r.ok else 'reverts'} where the same call in "
+                               f"expression position ({'d_' + fn[0][3:]}) {'succeeds' if r2.ok else 'reverts'}")
+                if r.ok and stmt:
+                    if callee_fails:
+                        bad = "callee failed but the caller did not revert"
+                    elif not code and not fn[3]:
+                        bad = "target has no code but the caller did not revert"
+                    elif len(data) < 32 * len(D.DYN[fn[1]][2]) and not (fn[4] and len(data) == 0):
+                        bad = "returndata shorter than the static size was accepted"
+                elif r.ok:
                     if callee_fails:
                         bad = "callee failed but the caller did not revert"
                     elif not code and not fn[3]:
@@ -319,8 +343,17 @@ def run(ctx):
                 reports.append(("failing-input", f"{c.name}: builtin does not follow its documented success/failure/truncation behaviour"
                                 + (": " + extra[0] if extra else ""), detail))
     shown = 0
+    by_fn = {}
     for kind, name, detail in reports:
-        if kind == "failing-input" and shown < MAX_REPORTS:
+        if kind == "failing-input":
+            k = f"{detail.get('function')} [{detail.get('config')}]"
+            by_fn[k] = by_fn.get(k, 0) + 1
+    ctx.corr["failing_functions"] = dict(sorted(by_fn.items())[:80])
+    seen_fn = set()
+    for kind, name, detail in reports:
+        # (one report per caller function first: different return types / positions are different shapes of a defect)
+        if kind == "failing-input" and shown < MAX_REPORTS and detail.get("function") not in seen_fn:
+            seen_fn.add(detail.get("function"))
             shown += 1
             ctx.violation("failing-input", name, detail, key=f"c12:{detail.get('config')}:{detail.get('function')}:{detail.get('case', '')}")
     if not found:
